@@ -238,6 +238,27 @@ def haralickQ (m : Nat) (c : List Nat) : List Float :=
   let cs := colSumG 0.0 m P
   (allPairs m).map fun ij => qEntryG 0.0 m P r cs ij.1 ij.2
 
+/-! ### `return_mean` / `return_mean_ptp` (round 4)
+
+`features.mean(axis=0)` adds the rows one after the other (first row, `+=` second row, …) and divides by the number of
+rows; `np.ptp(features, axis=0)` is `maximum.reduce − minimum.reduce` along the same axis. Generic in the scalar type. -/
+
+/-- `np.add.reduce(rows, axis=0)` -/
+def colFoldG {α : Type} (f : α → α → α) : List (List α) → List α
+  | [] => []
+  | r0 :: rest => rest.foldl (fun acc r => List.zipWith f acc r) r0
+
+/-- `features.mean(axis=0)` -/
+def colMeanG {α : Type} [Add α] [Div α] (cast : Nat → α) (rows : List (List α)) : List α :=
+  (colFoldG (· + ·) rows).map (· / cast rows.length)
+
+def maxG {α : Type} [LT α] [DecidableLT α] (a b : α) : α := if a < b then b else a
+def minG {α : Type} [LT α] [DecidableLT α] (a b : α) : α := if b < a then b else a
+
+/-- `np.ptp(features, axis=0)` (no NaN) -/
+def colPtpG {α : Type} [Sub α] [LT α] [DecidableLT α] (rows : List (List α)) : List α :=
+  List.zipWith (· - ·) (colFoldG maxG rows) (colFoldG minG rows)
+
 /-! ## LBP code mapping (`_lbp.cpp`) -/
 
 /-- `roll_right(v, points) = (v >> 1) | ((v & 1) << (points-1))` -/
@@ -507,6 +528,10 @@ def handle (a : Args) : String :=
       let c := if a.nat "iz" == 1 then stripZeros m c else c
       haralickQ m c
     s!"q={showFloats qs.flatten} ndirs={ndirs}"
+  | "harmean" =>
+    -- `return_mean` / `return_mean_ptp` of a feature matrix (rows = directions)
+    let rows := chunk (a.nat "w") (a.floats "feats")
+    s!"mean={showFloats (colMeanG Float.ofNat rows)} ptp={showFloats (colPtpG rows)}"
   | "tas" => C19Tas.handle a
   | "lbpt" =>
     -- `lbp_transform(image, radius, points, ignore_zeros, preserve_shape=False)`: sampling, raw codes, `_lbp.map`
